@@ -67,6 +67,8 @@ class GenRule(TermRule):
             return tv(f"rx:{name}", none=False, truth=True)
         if isinstance(v, EnumRef):
             return AV("const", ("enum", str(v)), truth=True, none=False)
+        if isinstance(v, list) and all(isinstance(x, (str, bytes, int, float, bool, type(None))) for x in v):
+            v = tuple(v)  # a module-level list of literals used as a table: its elements are what matters
         if isinstance(v, (str, bytes, int, float, bool, type(None), tuple, frozenset)):
             try:
                 hash(v)
@@ -164,7 +166,7 @@ class GenRule(TermRule):
             leaf = f.attr
             if recv.kind != "self" and leaf in PURE_STR_METHODS and not (recv.sym or "").startswith(("p:**",)):
                 return None  # known pure operation: TermRule builds the term
-            if recv.sym and ((recv.sym.startswith("list(") and leaf in ("append", "extend")) or (recv.sym.startswith("set(") and leaf in ("add", "update"))) and isinstance(f.value, ast.Name):
+            if recv.sym and ((recv.sym.startswith(("list(", "listcomp(")) and leaf in ("append", "extend")) or (recv.sym.startswith(("set(", "setcomp(")) and leaf in ("add", "update"))) and isinstance(f.value, ast.Name):
                 return None  # local list / set builder
             if recv.kind == "self" or text.startswith("cls."):
                 nm = f"self.{leaf}"
